@@ -109,6 +109,11 @@ func canonicalList(dst *Segment, l List) (List, error) {
 		}
 		end, _ := l.off.addSize(sz) // list was already validated
 		copy(dst.data[newAddr:], l.seg.data[l.off:end])
+		if rem := uint(l.length % 8); l.flags&isBitList != 0 && rem != 0 {
+			// The unused bits of a bit list's last byte are not part of
+			// its value: equal lists must give equal bytes.
+			dst.data[newAddr.addSizeUnchecked(sz-1)] &= byte(1)<<rem - 1
+		}
 		return cl, nil
 	}
 	if l.flags&isCompositeList == 0 {
